@@ -142,3 +142,73 @@ func ruleI5(c *an.Ctx) {
 	c.Floor("I5", "stores unwrapping TypeId.MapDim in package core", nMap, 1)
 	c.Floor("I5", "stores decrementing TypeId.ArrayDim in package core", nArr, 1)
 }
+
+// I6: a binary search is only made on a list that was sorted first.  The split status of an
+// argument is found by looking its name up in InvocationData.SplitArgs, a list that arrives in
+// binding order (BuildDataForAst, hand-written invocation JSON).  Replacing the scan by
+// sort.SearchStrings / slices.BinarySearch without sorting the list first misses names, the
+// argument loses its `split` and its value is printed as a plain map literal.  General form: in
+// the runtime and syntax packages every SearchStrings/SearchInts/SearchFloat64s/BinarySearch* call
+// takes a haystack on which, on every path from the function's entry, a sort call was made
+// (same value or same access path).  No such search exists in the tree today; the rule is kept
+// alive by its self-test mutant.
+func ruleI6(c *an.Ctx) {
+	p := c.P
+	n := 0
+	isSortOf := func(in ssa.Instruction, hay ssa.Value) bool {
+		cl := an.AsCallAny(in)
+		if cl == nil {
+			return false
+		}
+		f := cl.Common().StaticCallee()
+		if f != nil && f.Origin() != nil {
+			f = f.Origin()
+		}
+		if f == nil || f.Pkg == nil || len(cl.Common().Args) == 0 {
+			return false
+		}
+		pp := f.Pkg.Pkg.Path()
+		if pp != "sort" && pp != "slices" {
+			return false
+		}
+		switch f.Name() {
+		case "Strings", "Ints", "Float64s", "Sort", "SortFunc", "SortStableFunc", "Stable", "Slice", "SliceStable":
+		default:
+			return false
+		}
+		a := an.Strip(cl.Common().Args[0])
+		return a == an.Strip(hay) || an.Path(a) == an.Path(hay)
+	}
+	for _, pk := range []string{pkgCore, pkgSyntax} {
+		for _, fn := range p.FuncsOf(pk) {
+			an.Instrs(fn, func(in ssa.Instruction) {
+				cl, ok := in.(*ssa.Call)
+				if !ok {
+					return
+				}
+				f := cl.Call.StaticCallee()
+				if f != nil && f.Origin() != nil {
+					f = f.Origin()
+				}
+				if f == nil || f.Pkg == nil || len(cl.Call.Args) == 0 {
+					return
+				}
+				pp := f.Pkg.Pkg.Path()
+				isSearch := (pp == "sort" && (f.Name() == "SearchStrings" || f.Name() == "SearchInts" || f.Name() == "SearchFloat64s")) ||
+					(pp == "slices" && strings.HasPrefix(f.Name(), "BinarySearch"))
+				if !isSearch {
+					return
+				}
+				n++
+				hay := cl.Call.Args[0]
+				w := an.Query{Fn: fn, Target: func(x ssa.Instruction) bool { return x == in },
+					Barrier: func(x ssa.Instruction) bool { return isSortOf(x, hay) }}.Find()
+				c.Check("I6", "binary-search-on-sorted-list("+an.StablePath(hay)+")@"+an.FnName(fn), in.Pos(), w == nil,
+					"a binary search is made on a list that is not sorted on every path to the search in this function: entries that are out of order are not found (an argument listed in splitargs loses its split status); "+c.WitnessString(w))
+			})
+		}
+	}
+	if n == 0 {
+		c.Pass("I6", "no-binary-search-in-runtime-or-syntax", 0, "no SearchStrings/BinarySearch call in packages core and syntax")
+	}
+}
